@@ -27,7 +27,8 @@ type Doc struct {
 	Extra   string    // extra trailer entries
 	Eol     string
 	// Override replaces computed numbers of the xref-stream serialisation by literal text:
-	// keys Size, Index (array text), N, First.
+	// keys Size, Index (array text), N, First; ObjStmPad / XRefPad append that many bytes to the decoded
+	// object stream body / cross-reference stream data.
 	Override map[string]string
 	// PrologMutate, if set, may change the numbers of the object stream prolog (objNr offset pairs) before encoding.
 	PrologMutate func(nums []int, bodyLen int) []int
